@@ -43,6 +43,11 @@ var c16variants = []string{
 	"vp-points-differ",
 	"no-ops-root-set",         // no operations at all, manifest carries an operations tree root
 	"empty-ops-tree-root-set", // an operations tree item without nodes, no operations, manifest carries an operations tree root
+	"ok-empty",                // no operations, no states, no trees, no roots: consistent
+	"ops-without-root",        // operations and their tree, the manifest has no operations tree root
+	"states-without-root",     // states and their tree, the manifest has no states tree root
+	"op-replaced-at-leaf",     // a leaf of the operations tree carries the key of a foreign operation (node hash kept, root kept), the operation is replaced
+	"state-replaced-at-leaf",  // the same for a state
 }
 
 type c16env struct {
@@ -128,7 +133,7 @@ func runC16(c *Ctx) error {
 		c.Count("variant", variant)
 		c.Count("importer", iv)
 		c.Count("validator", vv)
-		consistent := variant == "ok"
+		consistent := variant == "ok" || variant == "ok-empty"
 		input := map[string]interface{}{"variant": variant, "height": int64(height), "round": uint64(round), "operations": nops, "states": nsts,
 			"importer": iv, "validator": vv, "stored_block_revalidated": stored}
 		if ierr != nil {
@@ -252,7 +257,7 @@ func c16write(c *Ctx, env *c16env, root, variant string, height base.Height, rou
 	}
 	// operations
 	var ops, treeOps []base.Operation
-	if variant != "no-ops-root-set" && variant != "empty-ops-tree-root-set" {
+	if variant != "no-ops-root-set" && variant != "empty-ops-tree-root-set" && variant != "ok-empty" {
 		for i := 0; i < nops; i++ {
 			ops = append(ops, newOp())
 		}
@@ -279,10 +284,19 @@ func c16write(c *Ctx, env *c16env, root, variant string, height base.Height, rou
 	for i := range ops {
 		ophs[i] = [2]util.Hash{ops[i].Hash(), ops[i].Fact().Hash()}
 	}
-	for i := range written {
-		if err := fs.SetOperation(ctx, uint64(len(written)), uint64(i), written[i]); err != nil {
-			return nil, err
+	var opsTree *fixedtree.Tree
+	var replaced base.Operation // set by op-replaced-at-leaf: written instead of the last operation
+	writeOps := func() error {
+		for i := range written {
+			op := written[i]
+			if replaced != nil && i == len(written)-1 {
+				op = replaced
+			}
+			if err := fs.SetOperation(ctx, uint64(len(written)), uint64(i), op); err != nil {
+				return err
+			}
 		}
+		return nil
 	}
 	if len(treeOps) > 0 {
 		tw, err := fixedtree.NewWriter(base.OperationFixedtreeHint, uint64(len(treeOps)))
@@ -304,10 +318,24 @@ func c16write(c *Ctx, env *c16env, root, variant string, height base.Height, rou
 		if err != nil {
 			return nil, err
 		}
-		if err := fs.SetOperationsTree(ctx, tr); err != nil {
+		opsRoot = tr.Root()
+		if variant == "op-replaced-at-leaf" {
+			last := uint64(len(treeOps) - 1)
+			foreign := newOp()
+			if err := tr.Set(last, base.NewInStateOperationFixedtreeNode(foreign.Fact().Hash(), "").SetHash(tr.Node(last).Hash())); err != nil {
+				return nil, err
+			}
+			replaced = foreign
+		}
+		opsTree = &tr
+	}
+	if err := writeOps(); err != nil {
+		return nil, err
+	}
+	if opsTree != nil {
+		if err := fs.SetOperationsTree(ctx, *opsTree); err != nil {
 			return nil, err
 		}
-		opsRoot = tr.Root()
 	}
 	if variant == "empty-ops-tree-root-set" {
 		if err := fs.SetOperationsTree(ctx, fixedtree.EmptyTree()); err != nil {
@@ -316,6 +344,9 @@ func c16write(c *Ctx, env *c16env, root, variant string, height base.Height, rou
 	}
 	if variant == "ops-root-mismatch" || variant == "no-ops-root-set" || variant == "empty-ops-tree-root-set" {
 		opsRoot = valuehash.RandomSHA256()
+	}
+	if variant == "ops-without-root" {
+		opsRoot = nil
 	}
 	// proposal
 	prPoint := point
@@ -335,8 +366,10 @@ func c16write(c *Ctx, env *c16env, root, variant string, height base.Height, rou
 	}
 	// states
 	var sts, treeSts []base.State
-	for i := 0; i < nsts; i++ {
-		sts = append(sts, newState(height))
+	if variant != "ok-empty" {
+		for i := 0; i < nsts; i++ {
+			sts = append(sts, newState(height))
+		}
 	}
 	switch variant {
 	case "state-other-height":
@@ -364,30 +397,48 @@ func c16write(c *Ctx, env *c16env, root, variant string, height base.Height, rou
 			treeSts = append(append([]base.State{}, sts...), newState(height))
 		}
 	}
+	var stsRoot util.Hash
+	var stsTree *fixedtree.Tree
+	if len(treeSts) > 0 {
+		tw, err := fixedtree.NewWriter(base.StateFixedtreeHint, uint64(len(treeSts)))
+		if err != nil {
+			return nil, err
+		}
+		for i := range treeSts {
+			if err := tw.Add(uint64(i), fixedtree.NewBaseNode(treeSts[i].Hash().String())); err != nil {
+				return nil, err
+			}
+		}
+		ststree, err := tw.Tree()
+		if err != nil {
+			return nil, err
+		}
+		stsRoot = ststree.Root()
+		if variant == "state-replaced-at-leaf" {
+			last := uint64(len(treeSts) - 1)
+			foreign := newState(height)
+			if err := ststree.Set(last, fixedtree.NewBaseNode(foreign.Hash().String()).SetHash(ststree.Node(last).Hash())); err != nil {
+				return nil, err
+			}
+			writtenSts = append(append([]base.State{}, writtenSts[:len(writtenSts)-1]...), foreign)
+		}
+		stsTree = &ststree
+	}
 	for i := range writtenSts {
 		if err := fs.SetState(ctx, uint64(len(writtenSts)), uint64(i), writtenSts[i]); err != nil {
 			return nil, err
 		}
 	}
-	tw, err := fixedtree.NewWriter(base.StateFixedtreeHint, uint64(len(treeSts)))
-	if err != nil {
-		return nil, err
-	}
-	for i := range treeSts {
-		if err := tw.Add(uint64(i), fixedtree.NewBaseNode(treeSts[i].Hash().String())); err != nil {
+	if stsTree != nil {
+		if err := fs.SetStatesTree(ctx, *stsTree); err != nil {
 			return nil, err
 		}
 	}
-	ststree, err := tw.Tree()
-	if err != nil {
-		return nil, err
-	}
-	if err := fs.SetStatesTree(ctx, ststree); err != nil {
-		return nil, err
-	}
-	stsRoot := ststree.Root()
 	if variant == "states-root-mismatch" {
 		stsRoot = valuehash.RandomSHA256()
+	}
+	if variant == "states-without-root" {
+		stsRoot = nil
 	}
 	manifest := isaac.NewManifest(height, prev, manifestProposal, opsRoot, stsRoot, prevSuf, time.Now().UTC())
 	// voteproofs
